@@ -35,7 +35,7 @@ REQUIRED_COUNTERS = [
     "accepted", "members.compared", "pos.declared", "pos.declared_renamed", "pos.pattern", "pos.additional",
     "pos.tuple_item", "pos.additional_item", "pos.list_item", "int_to_float", "int_kept_under_integer",
     "branch.first_accepting_checked", "branch.index0", "branch.index_gt0", "model_instances", "anon_objects",
-    "extras.default_or_notpassed", "access.attribute", "access.item", "families", "family.accepted_level1",
+    "extras.default_or_notpassed", "access.attribute", "access.item", "families", "family.accepted_level1", "dsl_templates.empty_tuple", "repeat_after_caller_edit",
 ]
 
 ANCHORS = [
@@ -397,7 +397,114 @@ def one_schema(ctx, sut, fpm, idx):
                         "; ".join(walker.problems[:3]), finding=walker.finding)
             continue
         check_branch(ctx, sut, fpm, element, pristine, result, case)
+        if isinstance(pristine, (dict, list)) and ctx.rng.random() < 0.3:
+            scribble_and_repeat(ctx, sut, fpm, element, pristine, result, case)
     ctx.sample({"schema": schema, "values": [v for v in values[:2]]}, every=60)
+
+
+def dsl_templates(ctx, sut, fpm, idx):
+    """Shapes only the DSL can express: an empty tuple of items (every item is an additional item)."""
+    from vlib import gen_dsl  # pylint: disable=import-outside-toplevel
+
+    rng = ctx.rng
+    inner = {"t": "Object", "name": f"Row{idx}", "kw": {}, "base": None, "id": 4000 + idx,
+             "props": {"entry_id": {"el": {"t": "Integer", "kw": {}}, "required": True, "source": "entry-id"},
+                       "x": {"el": {"t": "Number", "kw": {}}, "required": False, "source": None},
+                       "note": {"el": {"t": "String", "kw": {"default": "n/a"}}, "required": False, "source": None}}}
+    additional = rng.choice([inner, {"t": "Number", "kw": {}}, {"t": "Array", "items": {"t": "Number", "kw": {}}, "kw": {}}])
+    spec = rng.choice([
+        {"t": "Array", "items": [], "kw": {"additionalItems": additional}},
+        {"t": "Element", "kw": {"items": [], "additionalItems": additional}},
+        {"t": "Element", "kw": {"properties": {"rows": {"el": {"t": "Array", "items": [], "kw": {"additionalItems": additional}},
+                                                        "required": False, "source": None}}}},
+    ])
+    try:
+        element = gen_dsl.build(spec)
+    except Exception as exc:  # pylint: disable=broad-except
+        ctx.count("build_failed." + type(exc).__name__)
+        return
+    ctx.count("dsl_templates.empty_tuple")
+    # the meaning of an empty tuple: items = additionalItems
+    schema = gen_dsl.to_schema(spec)
+
+    def normalise(node):
+        if isinstance(node, dict):
+            node = {k: normalise(v) for k, v in node.items()}
+            if node.get("items") == []:
+                node["items"] = node.pop("additionalItems", True)
+            return node
+        if isinstance(node, list):
+            return [normalise(v) for v in node]
+        return node
+
+    schema = normalise(schema)
+    values = gv.batch_for_schema(rng, schema, schema, count=8, lookalikes=False)
+    values += [[{"entry-id": 1, "x": 2}, {"entry-id": 2}], [1, 2.5, 3], {"rows": [{"entry-id": 5, "x": 1}]}, {"rows": [3, 4]}]
+    for value in values:
+        ctx.evaluation()
+        pristine = copy.deepcopy(value)
+        outcome, result, _exc = sut.call(element, value)
+        if outcome != "ok":
+            ctx.count("rejected")
+            continue
+        ctx.count("accepted")
+        case = {"spec": spec}
+        walker = Walk(ctx, sut, case)
+        walker.walk(result, pristine, schema, "$")
+        if walker.problems:
+            ctx.witness("result_incomplete_or_altered", {**case, "value": pristine},
+                        "; ".join(walker.problems[:3]), finding=walker.finding)
+            return
+    _ = fpm
+
+
+def scribble_and_repeat(ctx, sut, fpm, element, pristine, result, case):
+    """Members that were not in the input hold their default - also for the NEXT model: the caller
+    edits returned default containers in place, then builds the same value again."""
+    before = fpm.fp_result(result)
+    touched = []
+    # an INVALID default is documented to come back as-is, i.e. as the schema's own object: editing that
+    # is editing the schema, which is the caller's business - never scribble on those
+    try:
+        nodes = [element] + list(sut.get_children(element))
+    except Exception:  # pylint: disable=broad-except
+        nodes = [element]
+    raw_defaults = {id(getattr(node, "default", None)) for node in nodes}
+
+    def visit(node, depth=0):
+        if depth > 6:
+            return
+        if isinstance(node, sut.Object):
+            store = getattr(node, "_dict", {})
+        elif isinstance(node, dict):
+            store = node
+        elif isinstance(node, list):
+            for member in node:
+                visit(member, depth + 1)
+            return
+        else:
+            return
+        for member in list(store.values()):
+            if id(member) in raw_defaults:
+                continue
+            visit(member, depth + 1)
+            if isinstance(member, list):
+                member.append("caller-edit")
+                touched.append(1)
+            elif isinstance(member, dict) and not isinstance(member, sut.Object):
+                member["caller-edit"] = 1
+                touched.append(1)
+
+    visit(result)
+    if not touched:
+        return
+    ctx.count("repeat_after_caller_edit")
+    outcome, again, _ = sut.call(element, copy.deepcopy(pristine))
+    if outcome != "ok" or fpm.fp_result(again) != before:
+        ctx.witness("result_depends_on_earlier_result", {**case, "value": pristine},
+                    "after the caller edited containers of the first result in place, building the same value "
+                    f"again gave {str(fpm.fp_result(again) if outcome == 'ok' else outcome)[:300]} instead of "
+                    f"{str(before)[:300]}")
 
 
 def one_family(ctx, sut, fpm, idx):
@@ -455,12 +562,26 @@ def run_shard(ctx):
         one_schema(ctx, sut, fpm, idx)
         if idx % 4 == 0:
             one_family(ctx, sut, fpm, idx)
+        if idx % 6 == 0:
+            dsl_templates(ctx, sut, fpm, idx)
 
 
 def replay(case, ctx):
     from vlib import fingerprint as fpm  # pylint: disable=import-outside-toplevel
     from vlib import sut  # pylint: disable=import-outside-toplevel
 
+    if "spec" in case:
+        from vlib import gen_dsl  # pylint: disable=import-outside-toplevel
+
+        element = gen_dsl.build(case["spec"])
+        outcome, result, _ = sut.call(element, copy.deepcopy(case["value"]))
+        ctx.evaluation()
+        if outcome == "ok":
+            walker = Walk(ctx, sut, case)
+            walker.walk(result, copy.deepcopy(case["value"]), None, "$")
+            if walker.problems:
+                ctx.witness("result_incomplete_or_altered", case, "; ".join(walker.problems[:3]))
+        return
     if "chain" in case:
         from vlib import gen_dsl  # pylint: disable=import-outside-toplevel
 
